@@ -280,6 +280,10 @@ def _replay(v):
                         mine = W.dd({"CPF": {"item": [{"type_id": 0x0C, "identity_object": chk}]}})
                         if bytes(parser.list_identity.produce(mine)) != bytes(bytearray(f["payload"])):
                             out.append("list_identity.produce(fields) = %s, layout tables say %s" % (bytes(parser.list_identity.produce(mine)).hex(), bytes(bytearray(f["payload"])).hex()))
+                        # the socket address may also be given as a 32-bit number (network order): the same octets
+                        asint = W.dd({"CPF": {"item": [{"type_id": 0x0C, "identity_object": dict(chk, sin_addr=int.from_bytes(bytes(bytearray(it["addr"])), "big"))}]}})
+                        if bytes(parser.list_identity.produce(asint)) != bytes(bytearray(f["payload"])):
+                            out.append("list_identity.produce(fields, address as a number) = %s, layout tables say %s" % (bytes(parser.list_identity.produce(asint)).hex(), bytes(bytearray(f["payload"])).hex()))
                     elif f["kind"] == "services":
                         it = f["item"]
                         chk = {"version": it["version"], "capability": it["capability"], "service_name": bytes(bytearray(it["name"])).decode("iso-8859-1")}
